@@ -8,7 +8,7 @@
      valid_vote v    : weight >= 0 and confidence >= 0
      thr_lt1 cfg     : custom ratio threshold < 1;  thr_le_half cfg : <= 1/2. *)
 From Coq Require Import ZArith List Bool QArith.
-From Verif Require Import C06.Model C06.Proofs.
+From Verif Require Import C06.Model C06.Proofs C06.ProofsWorld C06.ProofsNonfinite.
 Import ListNotations.
 Open Scope Q_scope.
 
@@ -506,3 +506,232 @@ Theorem c06_vote_after_any_timed_call_is_fresh :
     run_vote lg (s_cfg (t_q ts)) (voters_of (s_colony (t_q ts)) sc2).
 Proof. exact vote_after_timed_call_proof. Qed.
 Print Assumptions c06_vote_after_any_timed_call_is_fresh.
+
+(* ====================================================================== *)
+(* Several objects: an instance and the objects copy.copy / copy.deepcopy make
+   of it.  A [world] is the colony the objects share, the result lists, and per
+   object what it owns (strategy, custom_threshold, min_voters, timeout_seconds,
+   tracking flag, callbacks, counters).  [WOn i op] is any operation of the
+   histories above addressed to object i, [WCopy i] is copy.copy(object i) (the
+   copy is appended), [WDeepCopy i] is copy.deepcopy(object i).  [wtrace]: every
+   aggregated vote with the object that was asked and the world it was asked in. *)
+
+(* Fewer permit/block ballots than min_voters: never PERMIT (ABSTAIN, not
+   reached) - the "at least the minimum voters" part of every criterion above. *)
+Theorem c06_below_min_voters_never_PERMIT :
+  forall lg cfg votes,
+    (count_kind Permit votes + count_kind Block votes < c_min_voters cfg)%Z ->
+    is_permit (aggregate lg cfg votes) = false /\ is_reached (aggregate lg cfg votes) = false /\
+    (forall r, aggregate lg cfg votes = Result r -> r_decision r = Abstain).
+Proof. exact below_min_voters_proof. Qed.
+Print Assumptions c06_below_min_voters_never_PERMIT.
+
+(* Every vote of every world history is the aggregation of the ballot cast by the
+   colony of that moment under the asked object's OWN configuration of that
+   moment - whichever object was asked, original or copy (of a copy ...).  All
+   per-ballot theorems above therefore hold for every vote on every object. *)
+Theorem c06_world_vote_is_aggregate_under_own_configuration :
+  forall lg w,
+    (forall ops i w' sc o,
+       In (i, w', sc, o) (wtrace lg w ops) ->
+       exists pre t rest p,
+         ops = pre ++ WOn i t :: rest /\ w' = wfinal lg w pre /\
+         nth_error (w_objs w') i = Some p /\
+         (exists d, call_of t = Some (sc, d, None)) /\
+         o = aggregate lg (pv_cfg p) (collect (voters_of (w_colony w') sc))) /\
+    (* ... and every run_vote made on an existing object is in the trace *)
+    (forall pre i t rest p sc d,
+       nth_error (w_objs (wfinal lg w pre)) i = Some p -> call_of t = Some (sc, d, None) ->
+       In (i, wfinal lg w pre, sc,
+           aggregate lg (pv_cfg p) (collect (voters_of (w_colony (wfinal lg w pre)) sc)))
+          (wtrace lg w (pre ++ WOn i t :: rest))).
+Proof. exact world_trace_proof. Qed.
+Print Assumptions c06_world_vote_is_aggregate_under_own_configuration.
+
+(* The configuration an object decides under is the one ITS CALLER GAVE IT.
+   [configured cfgs ops] is computed from the operations alone: set_strategy and
+   min_voters assignments re-configure the object they are addressed to; a copy
+   starts with the configuration (strategy, custom threshold AND min_voters) its
+   original has at that moment; nothing else - no vote, callback, colony change,
+   reliability update, timeout assignment, deep copy, and no operation on any
+   OTHER object - ever changes a configuration. *)
+Theorem c06_world_configuration_is_what_the_caller_configured :
+  forall lg ops w,
+    map pv_cfg (w_objs (wfinal lg w ops)) = configured (map pv_cfg (w_objs w)) ops.
+Proof. exact wfinal_cfgs. Qed.
+Print Assumptions c06_world_configuration_is_what_the_caller_configured.
+
+Theorem c06_world_vote_uses_the_configured_settings :
+  forall lg ops w i w' sc o,
+    In (i, w', sc, o) (wtrace lg w ops) ->
+    exists pre t rest c,
+      ops = pre ++ WOn i t :: rest /\ w' = wfinal lg w pre /\
+      nth_error (configured (map pv_cfg (w_objs w)) pre) i = Some c /\
+      o = aggregate lg c (collect (voters_of (w_colony w') sc)).
+Proof. exact wtrace_configured. Qed.
+Print Assumptions c06_world_vote_uses_the_configured_settings.
+
+(* in particular: a vote on ANY object with fewer permit/block ballots than the
+   min_voters its caller configured (for a copy: its original's, unless
+   re-assigned on the copy itself) is never PERMIT *)
+Theorem c06_world_below_configured_min_voters_never_PERMIT :
+  forall lg ops w i w' sc o,
+    In (i, w', sc, o) (wtrace lg w ops) ->
+    exists pre t rest c,
+      ops = pre ++ WOn i t :: rest /\
+      nth_error (configured (map pv_cfg (w_objs w)) pre) i = Some c /\
+      let votes := collect (voters_of (w_colony w') sc) in
+      ((count_kind Permit votes + count_kind Block votes < c_min_voters c)%Z ->
+       is_permit o = false /\ is_reached o = false).
+Proof. exact world_below_min_voters_proof. Qed.
+Print Assumptions c06_world_below_configured_min_voters_never_PERMIT.
+
+(* Right after copy.copy the copy answers EVERY proposal exactly as its original
+   does (same verdict, same counts), every older object answers as before, and
+   the colony is untouched. *)
+Theorem c06_copy_decides_like_its_original :
+  forall lg w i,
+    (forall p sc,
+       nth_error (w_objs w) i = Some p ->
+       let w' := wstep lg w (WCopy i) in
+       length (w_objs w') = S (length (w_objs w)) /\
+       ask lg w' (length (w_objs w)) sc = ask lg w i sc /\
+       (forall j, (j < length (w_objs w))%nat -> ask lg w' j sc = ask lg w j sc) /\
+       w_colony w' = w_colony w) /\
+    (* copy.deepcopy yields no second quorum (it raises): the world is unchanged *)
+    wstep lg w (WDeepCopy i) = w.
+Proof. exact copy_proof. Qed.
+Print Assumptions c06_copy_decides_like_its_original.
+
+(* An operation on object i leaves the configuration of every other object alone
+   and changes object i's only as set_strategy / a min_voters assignment says. *)
+Theorem c06_world_operation_frames_configuration :
+  forall lg w i t j,
+    option_map pv_cfg (nth_error (w_objs (wstep lg w (WOn i t))) j) =
+    if (i =? j)%nat then option_map (fun p => cfg_op (pv_cfg p) t) (nth_error (w_objs w) j)
+    else option_map pv_cfg (nth_error (w_objs w) j).
+Proof. exact frame_proof. Qed.
+Print Assumptions c06_world_operation_frames_configuration.
+
+(* lifted: nobody permits => not PERMIT, on whichever object, whatever happened before *)
+Theorem c06_world_no_permit_no_PERMIT :
+  forall ops w i w' sc o,
+    In (i, w', sc, o) (wtrace false w ops) ->
+    (exists p, nth_error (w_objs w') i = Some p /\
+      (valid_thr (pv_cfg p) ->
+       (forall x, In x (voters_of (w_colony w') sc) -> casts Permit x = false) ->
+       is_permit o = false /\ is_reached o = false)) /\
+    (* lifted: the reported counts of every vote on every object are those of the
+       ballots cast in that vote by the colony of that moment *)
+    (forall r, o = Result r ->
+       let voters := voters_of (w_colony w') sc in
+       r_total r = len (w_colony w') /\
+       r_permit r = count_voters (casts Permit) voters /\
+       r_block r = count_voters (casts Block) voters /\
+       r_abstain r = count_voters (casts Abstain) voters /\
+       r_votes r = collect voters).
+Proof. exact world_lifted_proof. Qed.
+Print Assumptions c06_world_no_permit_no_PERMIT.
+
+(* What the holder of object i sees after an operation on object i is the
+   instance it saw before advanced by that operation ([tstep], the single
+   instance of all the theorems above); [wf]: every object refers to an existing
+   result list - true of the initial world and kept by every operation. *)
+Theorem c06_world_object_is_an_instance :
+  forall lg,
+    (forall w i t p,
+       wf w -> nth_error (w_objs w) i = Some p ->
+       exists p', nth_error (w_objs (wstep lg w (WOn i t))) i = Some p' /\
+                  view (wstep lg w (WOn i t)) p' = tstep lg (view w p) t) /\
+    (forall cfg tracking timeout ws ops, wf (wfinal lg (init_world cfg tracking timeout ws) ops)).
+Proof. exact object_instance_proof. Qed.
+Print Assumptions c06_world_object_is_an_instance.
+
+(* A world in which nothing is ever copied is the single instance: same votes
+   (scripts and outcomes, in order), same final view. *)
+Theorem c06_single_object_world_is_the_instance :
+  forall lg cfg tracking timeout ws ops,
+    let w := init_world cfg tracking timeout ws in
+    let ts := mkT (init_state cfg tracking ws) timeout 0 in
+    map (fun x => (snd (fst x), snd x)) (wtrace lg w (on0 ops)) =
+    map (fun x => (snd (fst (fst x)), snd x)) (ttrace lg ts ops) /\
+    exists p', w_objs (wfinal lg w (on0 ops)) = [p'] /\ view (wfinal lg w (on0 ops)) p' = tfinal lg ts ops.
+Proof. exact init_single_object_proof. Qed.
+Print Assumptions c06_single_object_world_is_the_instance.
+
+(* ====================================================================== *)
+(* Numbers that are not finite.  [xq] = a rational, +inf, -inf or nan;
+   [xaggregate] / [xrun_vote] are _aggregate_votes / run_vote over ballots whose
+   weights, reliabilities, payload confidences and custom threshold are [xq]
+   (IEEE comparisons: every comparison with nan is false; inf - inf, 0 * inf,
+   inf / inf are nan; int(nan) / int(inf) raise). *)
+
+(* On finite numbers the extended model IS the rational model: every theorem
+   above is a theorem about [xaggregate] / [xrun_vote] on finite inputs. *)
+Theorem c06_finite_numbers_are_the_rational_model :
+  forall cfg,
+    (forall votes, xaggregate (inj_cfg cfg) (map inj_vote votes) = inj_outcome (aggregate false cfg votes)) /\
+    (forall voters, xrun_vote (inj_cfg cfg) (map inj_voter voters) = inj_outcome (run_vote false cfg voters)).
+Proof. exact embedding_both_proof. Qed.
+Print Assumptions c06_finite_numbers_are_the_rational_model.
+
+(* A ballot with no permit vote is never PERMIT and never reached - for EVERY
+   weight, reliability and confidence (nan, +inf, -inf, negative ... included),
+   every strategy, every min_voters, and every custom threshold that is not
+   negative: absent, a rational >= 0, +inf or nan. *)
+Theorem c06_nonfinite_no_permit_no_PERMIT :
+  forall cfg,
+    xvalid_thr cfg ->
+    (forall votes,
+       (forall v, In v votes -> xv_kind v <> Permit) ->
+       x_is_permit (xaggregate cfg votes) = false /\ x_is_reached (xaggregate cfg votes) = false) /\
+    (* at the level of run_vote: no voter's agent returns PERMIT or EXECUTE *)
+    (forall voters,
+       (forall x, In x voters -> match xvr_beh x with
+                                 | XActed APermit _ | XActed AExecute _ => False
+                                 | _ => True end) ->
+       x_is_permit (xrun_vote cfg voters) = false /\ x_is_reached (xrun_vote cfg voters) = false).
+Proof. exact x_no_permit_both_proof. Qed.
+Print Assumptions c06_nonfinite_no_permit_no_PERMIT.
+
+(* A threshold that is nan or +inf is never exceeded: no ballot at all is PERMIT
+   (UNANIMOUS does not read the threshold). *)
+Theorem c06_nonfinite_unordered_threshold_never_PERMIT :
+  forall cfg votes,
+    (xc_custom cfg = Some XNaN \/ xc_custom cfg = Some XPInf) -> xc_strategy cfg <> Unanimous ->
+    x_is_permit (xaggregate cfg votes) = false /\ x_is_reached (xaggregate cfg votes) = false.
+Proof. exact x_unordered_threshold_proof. Qed.
+Print Assumptions c06_nonfinite_unordered_threshold_never_PERMIT.
+
+(* The strategies that count heads (MAJORITY, SUPERMAJORITY, UNANIMOUS, THRESHOLD,
+   hence EmergencyQuorum) with a rational or absent threshold never read a weight
+   or a confidence: their verdict on ANY ballot is the rational model's verdict on
+   the ballot with its numbers taken away, so their criteria above hold whatever
+   the numbers are. *)
+Theorem c06_nonfinite_head_counts_ignore_numbers :
+  forall cfg votes,
+    counts_heads (c_strategy cfg) ->
+    xverdict (xaggregate (inj_cfg cfg) votes) = verdict (aggregate false cfg (map forget votes)).
+Proof. exact x_head_counts_proof. Qed.
+Print Assumptions c06_nonfinite_head_counts_ignore_numbers.
+
+Theorem c06_nonfinite_below_min_voters_never_PERMIT :
+  forall cfg votes,
+    (xcount_kind Permit votes + xcount_kind Block votes < xc_min_voters cfg)%Z ->
+    x_is_permit (xaggregate cfg votes) = false /\ x_is_reached (xaggregate cfg votes) = false.
+Proof. exact x_below_min_voters_proof. Qed.
+Print Assumptions c06_nonfinite_below_min_voters_never_PERMIT.
+
+(* reported counts equal the ballots cast, whatever the numbers; a failed voter is
+   a zero-confidence abstention whatever its weight *)
+Theorem c06_nonfinite_counts_exact :
+  forall cfg votes,
+    (forall r, xaggregate cfg votes = XResult r ->
+       xr_total r = len votes /\ xr_permit r = xcount_kind Permit votes /\
+       xr_block r = xcount_kind Block votes /\ xr_abstain r = xcount_kind Abstain votes /\
+       xr_votes r = votes) /\
+    x_is_reached (xaggregate cfg votes) = x_is_permit (xaggregate cfg votes) /\
+    (forall w rel, xvote_of_voter (mkXVoter XFailed w rel) = mkXVote Abstain w (XFin 0)).
+Proof. exact x_reports_proof. Qed.
+Print Assumptions c06_nonfinite_counts_exact.
+
